@@ -154,6 +154,57 @@ def epoch_of_jde (jde : Num) : PyRes Num :=
     -- self._jde = self._compute_jde(year, month, day, utc2tt=False)   (... return jde + deltasec / DAY2SEC)
     .ok (compute_jde y m day + 0.0 / 86400.0)
 
+/-- `datetime.date(y, m, d).timetuple().tm_yday` (stub of the standard library, proleptic Gregorian calendar,
+    years 1..9999; `ValueError` for a date that does not exist).  Validated by the correspondence run. -/
+def tm_yday (y m d : Int) : PyRes Int :=
+  let ml : Int := if m = 2 ∧ calendar_isleap y then 29 else maxdays.getD (m - 1).toNat 0
+  if y < 1 ∨ 9999 < y ∨ m < 1 ∨ 12 < m ∨ d < 1 ∨ ml < d then .error .valueError
+  else
+    let before : Int := ((List.range (m - 1).toNat).map fun i =>
+      if i = 1 ∧ calendar_isleap y then (29 : Int) else maxdays.getD i 0).foldl (· + ·) 0
+    .ok (before + d)
+
+/-- `Epoch.get_doy(yyyy, mm, dd)` (Epoch.py:752) for int `yyyy`, `mm` and float `dd`. -/
+def get_doy (yyyy mm : Int) (dd : Num) : PyRes Num :=
+  -- if dd < 1 or dd >= 32 or mm < 1 or mm > 12: raise ValueError
+  if plt dd 1 || ple 32 dd || decide (mm < 1) || decide (mm > 12) then .error .valueError
+  else
+    -- day = int(dd); frac = dd % 1
+    let day : Int := ptrunc dd
+    let frac := pmod dd 1
+    if yyyy > 1582 then
+      -- d = datetime.date(yyyy, mm, day) (ValueError -> ValueError); doy = d.timetuple().tm_yday
+      match tm_yday yyyy mm day with
+      | .error e => .error e
+      | .ok doy => .ok (ofInt doy + frac)        -- float(doy + frac)
+    else
+      -- leap = Epoch.is_leap(yyyy); maxdays = [...]; if day > maxdays[int(mm) - 1]: raise ValueError
+      let leap := is_leap yyyy
+      let ml : Int := if mm = 2 then (if leap then 29 else 28) else maxdays.getD (mm - 1).toNat 0
+      if day > ml then .error .valueError
+      else
+        -- k = 1 if leap else 2
+        let k : Int := if leap then 1 else 2
+        -- doy = (iint((275.0 * mm) / 9.0) - k * iint((mm + 9.0) / 12.0) + day - 30.0)
+        let doy : Num := ofInt (pfloor ((275.0 * ofInt mm) / 9.0) - k * pfloor ((ofInt mm + 9.0) / 12.0) + day) - 30.0
+        -- if yyyy == 1582 and (mm > 10 or (mm == 10 and day >= 15)): doy -= 10.0
+        let doy := if yyyy = 1582 ∧ (mm > 10 ∨ (mm = 10 ∧ day ≥ 15)) then doy - 10.0 else doy
+        .ok (doy + frac)
+
+/-- `Epoch.year()` (Epoch.py:1775) of an epoch with the given `_jde`. -/
+def epoch_year (jde : Num) : PyRes Num :=
+  -- y, m, d = self.get_date(); doy = Epoch.get_doy(y, m, d)
+  match get_date jde with
+  | .error e => .error e
+  | .ok (y, m, d) =>
+    match get_doy y m d with
+    | .error e => .error e
+    | .ok doy =>
+      -- doy -= 1; days_of_year = 365.0; if self.leap(): days_of_year = 366.0; return y + doy / days_of_year
+      let doy := doy - 1
+      let days_of_year : Num := if is_leap y then 366.0 else 365.0
+      .ok (ofInt y + doy / days_of_year)
+
 /-- The whole finder from `y = epoch.year()`: `Epoch(jde0 + corr).jde()` and, for the elongation
     finders, the angle in degrees. -/
 def finder_epoch (r : Finder) (y : Num) : PyRes (Num × Option Num) :=
@@ -163,6 +214,13 @@ def finder_epoch (r : Finder) (y : Num) : PyRes (Num × Option Num) :=
     match epoch_of_jde j with
     | .error e => .error e
     | .ok je => .ok (je, finder_elon r (finder_k r y))
+
+/-- The whole finder from the query epoch's `_jde`: `epoch.year()` first (an error of `year()` propagates, as in
+    Python, where the call is the first statement after the type guard), then the finder. -/
+def finder_from_jde (r : Finder) (jde : Num) : PyRes (Num × Option Num) :=
+  match epoch_year jde with
+  | .error e => .error e
+  | .ok y => finder_epoch r y
 --@end
 
 end Pymeeus.Gen@K@
